@@ -65,8 +65,8 @@ def CheckCase.setEnv (c : CheckCase) : SetEnv × (StateView → CheckEnv) × Sta
   let program := fun a => match c.progs.find? (fun e => e.1 == a) with | some e => e.2 | none => []
   let mkCe := fun (post : StateView) => ({
     program := program,
-    vmEnv := fun sols idx ops => {
-      ops := ops, cost := fun _ => 1, limit := u64Max, solutions := sols, index := idx, pre := pre, post := post,
+    baseEnv := fun ops => {
+      ops := ops, cost := fun _ => 1, limit := u64Max, solutions := [], index := 0, pre := pre, post := post,
       sha256 := Sha256.sha256, edVerify := fun _ _ _ => some false, secpRecover := fun _ _ _ => .badSig, maxBreadth := 4096 },
     fuel := 2000000 } : CheckEnv)
   let predicate := fun ca pa => match c.preds.find? (fun e => e.1 == ca && e.2.1 == pa) with
